@@ -506,6 +506,12 @@ impl<H: Host> Z80Bus for ZXController<H> {
 
     // wait with memory request pin active
     fn wait_mreq(&mut self, addr: u16, clk: usize) {
+        // Accesses which take zero clocks are performed by the emulator itself (snapshot
+        // save/load, fast tape loader), not by the CPU: ULA can't delay them and
+        // emulated time must not advance
+        if clk == 0 {
+            return;
+        }
         match self.machine {
             ZXMachine::Sinclair48K | ZXMachine::Sinclair128K => {
                 // contention in low 16k RAM
